@@ -734,6 +734,13 @@ class Server(BaseComponent):
             raise RuntimeError('Cannot reuse socket for already started STARTTLS.')
         self.__starttls.add(sock)
         self._poller.removeReader(sock)
+        # what was written before the upgrade (the clear-text go-ahead) has to
+        # go out first: once the socket has left _clients it is not served
+        while self._buffers.get(sock):
+            yield
+        if sock not in self._clients:
+            # closed while waiting
+            return
         self._clients.remove(sock)
         for _ in self._do_handshake(sock, False):
             yield
